@@ -90,6 +90,8 @@ func frag(kind string) any {
 		return m("type", "object", "properties", m("k", m("type", "string")), "default", m("", 1))
 	case "arraynoitems":
 		return m("type", "array")
+	case "typednonprimenum": // a non-primitive value in an enum that declares its type
+		return m("type", "string", "enum", []any{m("x", 1), "s"})
 	case "nullschema":
 		return nil
 	case "selfallof": // injected as definition F: it lists itself as an allOf branch
